@@ -12,6 +12,7 @@ import ast
 from sa.cfg import CFG
 from sa.core import AnalysisError, loc, short, unparse, walk_no_nested
 from sa.fold import EnumVal, Folder, Sym
+from sa.guards import resolved, symbolic_block
 
 FN = "FIXNewOrderSingle.change_status"
 REPORT_KINDS = ("EXECUTIONREPORT", "ORDERCANCELREJECT")
@@ -103,28 +104,30 @@ def check_resolver(ctx, fn, table_var, params, chain):
     p_status, p_kind, p_exec, p_msgstatus, p_raise = params
     rule = "C16.resolver-shape"
     after = fn.body[fn.body.index(chain) + 1:]
-    src = {i: s for i, s in enumerate(after)}
+    # symbolic value of the looked-up verdict: whatever locals the function uses on the way
+    env, rest = symbolic_block([st for st in after if not (isinstance(st, ast.If) and not st.orelse and len(st.body) == 1 and isinstance(st.body[0], ast.Raise))])
     row_var = default_var = result_var = None
     exec_level_ok = False
-    for st in after:
-        for n in walk_no_nested(st):
-            if isinstance(n, ast.Assign) and len(n.targets) == 1 and isinstance(n.targets[0], ast.Name):
-                t, v = n.targets[0].id, n.value
-                u = unparse(v).replace('"', "'")
-                if u == f"{table_var}.get({p_status}, {table_var}[None])":
-                    row_var = t
-                elif row_var and u == f"{row_var}['exec_type'].get({p_exec}, {row_var}['exec_type'][None])" and t == row_var:
-                    # must be guarded by the presence test of the optional level
-                    par = getattr(n, "_parent", None)
-                    if isinstance(par, ast.If) and "'exec_type' in " + row_var in unparse(par.test).replace('"', "'"):
-                        exec_level_ok = True
-                elif row_var and u == f"{row_var}[None]":
-                    default_var = t
-                elif row_var and default_var and u == f"{row_var}.get({p_msgstatus}, {default_var})":
-                    result_var = t
-                elif row_var and u == f"{row_var}.get({p_msgstatus}, {row_var}[None])":
-                    result_var = t
-                    default_var = default_var or "<inline>"
+    q = lambda e: unparse(e).replace('"', "'")  # noqa: E731
+    r0 = f"{table_var}.get({p_status}, {table_var}[None])"
+    lvl = f"{r0}['exec_type'].get({p_exec}, {r0}['exec_type'][None])"
+    for st in rest[:1]:
+        if isinstance(st, ast.If):
+            for n in ast.walk(st.test):
+                if isinstance(n, ast.Compare) and len(n.ops) == 1 and isinstance(n.ops[0], (ast.Is, ast.IsNot)) and isinstance(n.left, ast.Name) \
+                        and unparse(n.comparators[0]) == "FIXError":
+                    result_var = n.left.id
+    val = env.get(result_var)
+    if isinstance(val, ast.Call) and isinstance(val.func, ast.Attribute) and val.func.attr == "get" and len(val.args) == 2 and not val.keywords \
+            and q(val.args[0]) == p_msgstatus and isinstance(val.args[1], ast.Subscript) and q(val.args[1].slice) == "None" \
+            and q(val.args[1].value) == q(val.func.value):
+        default_var = "row[None]"
+        row = val.func.value
+        if isinstance(row, ast.IfExp) and q(row.body) == lvl and q(row.orelse) == r0:
+            row_var = "row"
+            conj = row.test.values if isinstance(row.test, ast.BoolOp) and isinstance(row.test.op, ast.And) else [row.test]
+            texts = {q(c) for c in conj}
+            exec_level_ok = f"'exec_type' in {r0}" in texts and texts <= {f"'exec_type' in {r0}", f"isinstance({r0}, dict)"}
     ok = bool(row_var and result_var and default_var and exec_level_ok)
     ctx.instance(rule, "lookup", ok,
                  "resolver no longer has the shape row=table.get(status, table[None]); optional exec_type level; "
@@ -399,8 +402,9 @@ def run(ctx):
         w = repo.func(f"FIXNewOrderSingle.{wname}")
         rets = [n for n in walk_no_nested(w) if isinstance(n, ast.Return)]
         ok = False
-        if len(rets) == 1 and isinstance(rets[0].value, ast.Compare):
-            cmp = rets[0].value
+        rv = resolved(w, rets[0].value) if len(rets) == 1 and rets[0].value is not None else None
+        if isinstance(rv, ast.Compare):
+            cmp = rv
             call = cmp.left
             if isinstance(call, ast.Call) and unparse(call.func).endswith("change_status") and len(cmp.ops) == 1 \
                     and isinstance(cmp.ops[0], ast.IsNot) and isinstance(cmp.comparators[0], ast.Constant) \
